@@ -12,7 +12,7 @@ func init() {
 	register(&propDef{
 		ID:      "C14",
 		Level:   "other",
-		Explain: "Generator/parser agreement for commands derived from service registrations, decided by taint and structure. Sites are found by ROLE, not by function name: a COMMAND SINK is a store of a string into a list of strings whose backward slice contains the literal 'route add' and a field of consul's api.CatalogService (service name, tags, addresses), wherever in the repository it is (today: routecmd.build). (T1) every sink value is stored only where a validator verdict on that very value holds - the fact may be a bool or a nil error, may be established in a helper that returns the command together with its verdict, or at the call sites of a helper that does the storing - and the validator (followed through wrappers) says yes only when route.Parse succeeded on the candidate, produced exactly one definition, that definition is a route add, and route.NewTable accepted it; so a registration that cannot be expressed (weight=abc, a tag containing a quote, a newline injecting a second command) is dropped on its own instead of poisoning the text every later table build parses; (Q1) nothing in the slice of a command escapes with %q/strconv.Quote while the parser (the region of route.Parse) takes quoted text verbatim; (I1) one service's failure affects only that service: every goroutine that (transitively) queries the catalog for one service sends its result exactly once on every path on a channel, the collector loop receives from that channel once per iteration, has no exit after the receive, and iterates exactly as often as the loop that spawned the goroutines (other spelling of the join: the goroutine stores its result into its own slot or under a mutex and signals a sync.WaitGroup on every path, the spawner adds before each go statement and waits after the loop); the function that queries the catalog returns on the error edge (no exit/panic) and returns only its own slice; (P4) in the region of route.Parse a float produced by strconv.ParseFloat is returned only when it is known to be finite (weight=Inf used to crash the process); (N1) the destination in the slice of a command is built with net.JoinHostPort from ServiceAddress (node Address only where ServiceAddress is known to be empty, or through cmp.Or in that order) and ServicePort, no text carried around the loop that emits the commands flows into a command, and each proto= option selects its own scheme prefix; (E1) the option words the generator compares with proto=/weight=/redirect= do not pass through os.Expand. Not decided: that the parsed command denotes the registration for every value (string/URL equality after a parse).",
+		Explain: "Generator/parser agreement for commands derived from service registrations, decided by taint and structure. Sites are found by ROLE, not by function name: a COMMAND SINK is the first place where a string whose backward slice contains the literal 'route add' and a field of consul's api.CatalogService (service name, tags, addresses) enters a list of strings or is sent on a channel of strings, wherever in the repository it is (today: routecmd.build); a list of the parts of one command (joined without a line break) is not a sink. Calls are followed through function values kept in tables and through small interfaces by type (c14_dyn.go), values through package-level tables and through structs filled by helpers that receive a pointer. (T1) every sink value is stored only where a validator verdict on that very value holds - the fact may be a bool or a nil error, may be established in a helper that returns the command together with its verdict, or at the call sites of a helper that does the storing - and the validator (followed through wrappers) says yes only when route.Parse succeeded on the candidate, produced exactly one definition, that definition is a route add, and route.NewTable accepted it; so a registration that cannot be expressed (weight=abc, a tag containing a quote, a newline injecting a second command) is dropped on its own instead of poisoning the text every later table build parses; (Q1) nothing in the slice of a command escapes with %q/strconv.Quote while the parser (the region of route.Parse) takes quoted text verbatim; (I1) one service's failure affects only that service: every goroutine that (transitively) queries the catalog for one service sends its result exactly once on every path on a channel (a worker that takes the services from a job channel: exactly once per job, staying until the job channel is closed, every service put on the job channel exactly once), the collector loop receives from that channel once per iteration, has no exit after the receive, and iterates exactly as often as the loop that spawned the goroutines (other spelling of the join: the goroutine stores its result into its own slot or under a mutex and signals a sync.WaitGroup on every path, the spawner adds before each go statement and waits after the loop; or the goroutines are started with errgroup.Group.Go and the group is waited for); the function that queries the catalog returns on the error edge (no exit/panic) and returns only its own slice; (P4) in everything route.Parse can reach in its package (also through a table of builder functions or an interface) a float produced by strconv.ParseFloat leaves the parser only where it is known to be finite - the judgement may sit in the parsing function, in a wrapper that receives the float, or in the callers it is returned to (weight=Inf used to crash the process); (N1) the destination in the slice of a command is built with net.JoinHostPort from ServiceAddress (node Address only where ServiceAddress is known to be empty, or through cmp.Or in that order) and ServicePort, no text carried around the loop that emits the commands flows into a command, and each proto= option selects its own scheme prefix; (E1) the option words the generator compares with proto=/weight=/redirect= do not pass through os.Expand. Not decided: that the parsed command denotes the registration for every value (string/URL equality after a parse).",
 		Run:     runC14,
 		Trusted: []string{"route.Parse is the parser NewTable uses (same function)", "hashicorp/consul/api field contents are arbitrary strings"},
 		Mutants: c14mutants(),
@@ -21,7 +21,7 @@ func init() {
 
 // c14sink is one place where a command derived from a catalog entry enters a list of commands.
 type c14sink struct {
-	store *ssa.Store
+	store ssa.Instruction // the store into an element of a list of strings, or the send on a channel of strings
 	val   ssa.Value
 	fn    *ssa.Function
 }
@@ -32,9 +32,25 @@ type c14state struct {
 	owners map[*ssa.Function]bool // functions that own a value in the backward slice of a command (same package as a sink)
 }
 
-func runC14(c *Ctx) {
+// c14stateOf: the sinks of the load (found once; C14's later entry points W2 and the quoting rule ask again).
+var c14stateCache = map[*Ctx]*c14state{}
+
+func c14stateOf(c *Ctx) *c14state {
+	if st := c14stateCache[c]; st != nil {
+		return st
+	}
+	for k := range c14stateCache {
+		delete(c14stateCache, k)
+	}
 	st := &c14state{c: c, owners: map[*ssa.Function]bool{}}
 	st.findSinks()
+	c14stateCache[c] = st
+	return st
+}
+
+func runC14(c *Ctx) {
+	c14ctx = c
+	st := c14stateOf(c)
 	c.atLeast("C14.T1", "stores of a catalog-derived 'route add' command into a list of commands (the generator)", len(st.sinks), 1)
 	if len(st.sinks) == 0 {
 		// the other generator rules have no subject either; they must not pass silently
@@ -88,24 +104,37 @@ func c14isRouteAddText(v ssa.Value) bool {
 }
 
 func (st *c14state) findSinks() {
-	for _, f := range st.c.AllFns {
+	var cands []c14sink
+	for _, f := range c14fns(st.c) {
 		ff := f
 		eachInstr(f, func(i ssa.Instruction) {
-			s, ok := i.(*ssa.Store)
-			if !ok || typeStr(s.Val.Type().Underlying()) != "string" {
+			var val ssa.Value
+			switch x := i.(type) {
+			case *ssa.Store:
+				if _, isElem := x.Addr.(*ssa.IndexAddr); !isElem {
+					return
+				}
+				val = x.Val
+			case *ssa.Send:
+				// commands streamed over a channel instead of collected in a list
+				val = x.X
+			default:
 				return
 			}
-			if _, isElem := s.Addr.(*ssa.IndexAddr); !isElem {
+			if typeStr(val.Type().Underlying()) != "string" {
 				return
 			}
-			if _, isK := s.Val.(*ssa.Const); isK {
+			if _, isK := val.(*ssa.Const); isK {
 				return
 			}
 			// copying an element from one list to another is not an entry: it was checked where it entered the first list
-			switch x := c14stripConv(s.Val).(type) {
+			switch x := c14stripConv(val).(type) {
 			case *ssa.UnOp:
 				if _, isElem := x.X.(*ssa.IndexAddr); isElem && x.Op == token.MUL {
 					return
+				}
+				if x.Op == token.ARROW {
+					return // forwarded from another channel
 				}
 			case *ssa.Index, *ssa.Lookup:
 				return
@@ -113,12 +142,37 @@ func (st *c14state) findSinks() {
 				if _, isNext := x.Tuple.(*ssa.Next); isNext {
 					return
 				}
+				if u, isRecv := x.Tuple.(*ssa.UnOp); isRecv && u.Op == token.ARROW {
+					return
+				}
 			}
-			if !c14derives(s.Val, c14isRouteAddText) || !taintedByCatalog(s.Val) {
+			if !c14derives(val, c14isRouteAddText) || !taintedByCatalog(val) {
 				return
 			}
-			st.sinks = append(st.sinks, c14sink{s, s.Val, ff})
+			cands = append(cands, c14sink{i, val, ff})
 		})
+	}
+	// a list of the PARTS of one command (`parts := []string{"route add " + name, route, dst}; strings.Join(parts, " ")`)
+	// is not a list of commands; and once a command has entered a list or a channel, the places further down that copy
+	// or join the collected text (the configuration sent to the update loop) are not entries either: the sink is the
+	// first place
+	var kept []c14sink
+	for _, a := range cands {
+		if st, ok := a.store.(*ssa.Store); ok && c14isPartsList(st) {
+			continue
+		}
+		kept = append(kept, a)
+	}
+	for k, a := range kept {
+		downstream := false
+		for j, b := range kept {
+			if j != k && b.val != a.val && c14derives(a.val, func(v ssa.Value) bool { return v == b.val }) && !c14derives(b.val, func(v ssa.Value) bool { return v == a.val }) {
+				downstream = true
+			}
+		}
+		if !downstream {
+			st.sinks = append(st.sinks, a)
+		}
 	}
 	for _, s := range st.sinks {
 		home := rootPkg(s.fn)
@@ -129,6 +183,56 @@ func (st *c14state) findSinks() {
 		}
 		st.owners[s.fn] = true
 	}
+}
+
+// c14isPartsList: the list the store fills is (also) joined into ONE line: it reaches strings.Join with a constant
+// separator that has no line break - forwards through append, reslicing, merges and local variables.
+func c14isPartsList(st *ssa.Store) bool {
+	ia, ok := st.Addr.(*ssa.IndexAddr)
+	if !ok {
+		return false
+	}
+	seen := map[ssa.Value]bool{}
+	var fwd func(v ssa.Value, d int) bool
+	fwd = func(v ssa.Value, d int) bool {
+		if v == nil || seen[v] || d > 12 || v.Referrers() == nil {
+			return false
+		}
+		seen[v] = true
+		for _, r := range *v.Referrers() {
+			switch x := r.(type) {
+			case *ssa.Slice:
+				if fwd(x, d+1) {
+					return true
+				}
+			case *ssa.Phi:
+				if fwd(x, d+1) {
+					return true
+				}
+			case *ssa.Call:
+				n := calleeName(&x.Call)
+				if n == "strings.Join" && len(x.Call.Args) == 2 && x.Call.Args[0] == v {
+					if sep, isK := constString(x.Call.Args[1]); isK && !strings.ContainsAny(sep, "\n\r") {
+						return true
+					}
+				}
+				if n == "builtin.append" && fwd(x, d+1) {
+					return true
+				}
+			case *ssa.Store:
+				// kept in a local variable: its later loads
+				if cell, isAlloc := x.Addr.(*ssa.Alloc); isAlloc && x.Val == v && cell.Referrers() != nil {
+					for _, r2 := range *cell.Referrers() {
+						if ld, isLoad := r2.(*ssa.UnOp); isLoad && ld.Op == token.MUL && fwd(ld, d+1) {
+							return true
+						}
+					}
+				}
+			}
+		}
+		return false
+	}
+	return fwd(ia.X, 0)
 }
 
 // ownerFns: deterministic order.
@@ -249,14 +353,10 @@ func (e c14env) verdicts() []c14verdict {
 	return out
 }
 
+// c14callees: the repository functions a call can reach: its static callee, the makers funcsOf can see, or - a function
+// value from a table, a method of an interface - the candidates by type (c14_dyn.go).
 func c14callees(cc *ssa.CallCommon) []*ssa.Function {
-	if cc.IsInvoke() {
-		return nil
-	}
-	if sc := cc.StaticCallee(); sc != nil {
-		return []*ssa.Function{unwrap(sc)}
-	}
-	return funcsOf(cc.Value)
+	return c14callTargets(cc, c14callerOf(cc))
 }
 
 // c14outcomes: the environments under which a returned value val (evaluated at the end of blk) has the outcome of
@@ -356,9 +456,12 @@ func c14implies(v c14verdict, args []int, leaf c14leaf, depth int) map[string]bo
 			return nil
 		}
 		p := map[*ssa.Parameter]bool{}
-		for _, k := range args {
-			if k < len(g.Params) {
-				p[g.Params[k]] = true
+		for pi, prm := range g.Params {
+			a := c14argFor(v.Call, g, pi)
+			for _, k := range args {
+				if a != nil && k < len(v.Call.Call.Args) && a == v.Call.Call.Args[k] {
+					p[prm] = true
+				}
 			}
 		}
 		tracked := func(x ssa.Value) bool { pp, ok := x.(*ssa.Parameter); return ok && p[pp] }
@@ -581,7 +684,7 @@ type c14t1 struct {
 // validated: the value e, used at the end of block blk (where additionally `extra` holds), has been accepted by a
 // validator.
 func (t *c14t1) validated(e ssa.Value, blk *ssa.BasicBlock, extra *c14env, depth int) bool {
-	if depth > 4 {
+	if depth > 6 {
 		return false
 	}
 	env := c14envAt(blk, extra)
@@ -651,11 +754,12 @@ func (t *c14t1) validated(e ssa.Value, blk *ssa.BasicBlock, extra *c14env, depth
 			return true
 		}
 	}
-	// (D) a parameter of a helper that does the storing: validated at every call site
+	// (D) a parameter of a helper that does the storing (a named helper, an emit callback, the body of a range-over-func
+	// loop, a method of a small sink interface): validated at every call site - the sites must be ALL its call sites
 	if p, ok := e.(*ssa.Parameter); ok {
 		fn := p.Parent()
-		sites := gSites[fn]
-		if fn != nil && onlyStaticallyCalled(fn) && len(sites) > 0 && len(sites) <= maxHelperSites {
+		sites, complete := c14allSites(fn)
+		if fn != nil && complete && len(sites) > 0 && len(sites) <= maxHelperSites {
 			idx := -1
 			for i, q := range fn.Params {
 				if q == p {
@@ -667,7 +771,8 @@ func (t *c14t1) validated(e ssa.Value, blk *ssa.BasicBlock, extra *c14env, depth
 				if !all {
 					break
 				}
-				if _, isGo := s.(*ssa.Go); isGo || idx >= len(s.Common().Args) || !t.validated(s.Common().Args[idx], s.Block(), nil, depth+1) {
+				arg := c14argFor(s, fn, idx)
+				if _, isGo := s.(*ssa.Go); isGo || arg == nil || !t.validated(arg, s.Block(), nil, depth+1) {
 					all = false
 				}
 			}
@@ -818,11 +923,301 @@ func c14pairsOn(verdict, val ssa.Value, blk *ssa.BasicBlock, edge *c14env, d int
 	return []c14pair{{verdict, val, blk, edge}}
 }
 
+// filteredLater: the candidate enters a list of CANDIDATES: every use of that list, followed forwards (appends, merges,
+// local variables, returned to all callers, handed to repository helpers), is harmless (len, reslicing, reading an
+// element) and every element read from it is stored into another list / sent on only where it is validated. Anything
+// else - the list spread into another list, joined into text, kept in a field - fails.
+func (t *c14t1) filteredLater(s c14sink) bool {
+	st, ok := s.store.(*ssa.Store)
+	if !ok {
+		return false
+	}
+	ia, ok := st.Addr.(*ssa.IndexAddr)
+	if !ok {
+		return false
+	}
+	tmp, ok := ia.X.(*ssa.Alloc)
+	if !ok || tmp.Referrers() == nil {
+		return false // an assignment to an element of an existing list: not followed
+	}
+	seenL, seenE := map[ssa.Value]bool{}, map[ssa.Value]bool{}
+	var list, elem func(v ssa.Value, d int) bool
+	cellLoads := func(cell *ssa.Alloc, f func(ssa.Value, int) bool, d int) bool {
+		if cell.Referrers() == nil {
+			return false
+		}
+		for _, r := range *cell.Referrers() {
+			switch y := r.(type) {
+			case *ssa.DebugRef, *ssa.Store:
+			case *ssa.UnOp:
+				if y.Op != token.MUL || !f(y, d+1) {
+					return false
+				}
+			default:
+				return false // captured by a closure, address passed on
+			}
+		}
+		return true
+	}
+	list = func(v ssa.Value, d int) bool {
+		if seenL[v] {
+			return true
+		}
+		seenL[v] = true
+		if d > 10 {
+			return false
+		}
+		if v.Referrers() == nil {
+			return true
+		}
+		for _, r := range *v.Referrers() {
+			switch x := r.(type) {
+			case *ssa.DebugRef:
+			case *ssa.IndexAddr:
+				if x.X != v || x.Referrers() == nil {
+					return false
+				}
+				for _, r2 := range *x.Referrers() {
+					switch y := r2.(type) {
+					case *ssa.DebugRef:
+					case *ssa.Store:
+						if y.Addr != ssa.Value(x) {
+							return false
+						}
+					case *ssa.UnOp:
+						if y.Op != token.MUL || !elem(y, d+1) {
+							return false
+						}
+					default:
+						return false
+					}
+				}
+			case *ssa.Index:
+				if !elem(x, d+1) {
+					return false
+				}
+			case *ssa.Slice:
+				if k, isK := constInt(x.High); x.High != nil && isK && k == 0 {
+					continue // list[:0]: the storage, none of the elements
+				}
+				if !list(x, d+1) {
+					return false
+				}
+			case *ssa.Phi:
+				if !list(x, d+1) {
+					return false
+				}
+			case *ssa.Store:
+				cell, isCell := x.Addr.(*ssa.Alloc)
+				if x.Val != v || !isCell || !cellLoads(cell, list, d) {
+					return false
+				}
+			case *ssa.Return:
+				fn := x.Parent()
+				sites, complete := c14allSites(fn)
+				if !complete || len(sites) > maxHelperSites {
+					return false
+				}
+				for k, res := range x.Results {
+					if res != v {
+						continue
+					}
+					for _, cs := range sites {
+						cv, isVal := cs.(ssa.Value)
+						if !isVal {
+							return false // go / defer: the result is dropped
+						}
+						if len(x.Results) == 1 {
+							if !list(cv, d+1) {
+								return false
+							}
+							continue
+						}
+						if cv.Referrers() != nil {
+							for _, r2 := range *cv.Referrers() {
+								if ex, isEx := r2.(*ssa.Extract); isEx && ex.Index == k && !list(ex, d+1) {
+									return false
+								}
+							}
+						}
+					}
+				}
+			case *ssa.Call:
+				n := calleeName(&x.Call)
+				switch {
+				case n == "builtin.len" || n == "builtin.cap":
+				case n == "builtin.append":
+					if len(x.Call.Args) == 2 && x.Call.Args[1] == v {
+						return false // spread into another list: every element copied unjudged
+					}
+					if !list(x, d+1) {
+						return false
+					}
+				default:
+					moved := false
+					for _, g := range c14callees(&x.Call) {
+						if g == nil || !isRepoFn(g) || len(g.Blocks) == 0 {
+							return false
+						}
+						for k, p := range g.Params {
+							if c14argFor(x, g, k) == v {
+								moved = true
+								if !list(p, d+1) {
+									return false
+								}
+							}
+						}
+					}
+					if !moved {
+						return false
+					}
+				}
+			default:
+				return false
+			}
+		}
+		return true
+	}
+	elem = func(v ssa.Value, d int) bool {
+		if seenE[v] {
+			return true
+		}
+		seenE[v] = true
+		if d > 12 {
+			return false
+		}
+		if v.Referrers() == nil {
+			return true
+		}
+		for _, r := range *v.Referrers() {
+			switch x := r.(type) {
+			case *ssa.DebugRef:
+			case *ssa.Store:
+				if x.Val != v {
+					return false
+				}
+				if _, isElem := x.Addr.(*ssa.IndexAddr); isElem {
+					if !t.validated(v, x.Block(), nil, 1) {
+						return false
+					}
+					continue
+				}
+				cell, isCell := x.Addr.(*ssa.Alloc)
+				if !isCell || !cellLoads(cell, elem, d) {
+					return false
+				}
+			case *ssa.Send:
+				if x.X != v || !t.validated(v, x.Block(), nil, 1) {
+					return false
+				}
+			case *ssa.Phi:
+				if !elem(x, d+1) {
+					return false
+				}
+			case *ssa.MakeInterface:
+				// boxed for a log line: the box goes into the operand list of a library call
+				if x.Referrers() != nil {
+					for _, r2 := range *x.Referrers() {
+						switch y := r2.(type) {
+						case *ssa.DebugRef:
+						case *ssa.Store:
+							ea, isElem := y.Addr.(*ssa.IndexAddr)
+							if !isElem {
+								return false
+							}
+							if _, isTmp := ea.X.(*ssa.Alloc); !isTmp {
+								return false
+							}
+						default:
+							return false
+						}
+					}
+				}
+			case *ssa.BinOp:
+				switch x.Op {
+				case token.EQL, token.NEQ, token.LSS, token.LEQ, token.GTR, token.GEQ:
+				default:
+					return false // new text made of the candidate
+				}
+			case *ssa.Call:
+				n := calleeName(&x.Call)
+				if n == "builtin.len" {
+					continue
+				}
+				if sc := x.Call.StaticCallee(); sc != nil && !isRepoFn(sc) {
+					// a library call: only those that cannot carry the text into the configuration
+					if strings.HasPrefix(n, "log.") || strings.HasPrefix(n, "bytes.NewBuffer") || strings.HasPrefix(n, "strings.NewReader") ||
+						n == "strings.HasPrefix" || n == "strings.HasSuffix" || n == "strings.Contains" || n == "strings.EqualFold" {
+						continue
+					}
+					return false
+				}
+				// a repository function: a judge (bool / error result) may look at it; anything else is followed as an element
+				for _, g := range c14callees(&x.Call) {
+					if g == nil || !isRepoFn(g) || len(g.Blocks) == 0 {
+						return false
+					}
+					res := g.Signature.Results()
+					judge := res.Len() > 0
+					for k := 0; k < res.Len(); k++ {
+						if tt := res.At(k).Type(); !c14isBoolType(tt) && !c14isErrorType(tt) {
+							judge = false
+						}
+					}
+					if judge {
+						continue
+					}
+					for k, p := range g.Params {
+						if c14argFor(x, g, k) == v && !elem(p, d+1) {
+							return false
+						}
+					}
+				}
+			default:
+				return false
+			}
+		}
+		return true
+	}
+	// the list the candidate enters: the result of the append that spreads the temporary, or the literal itself
+	started := false
+	for _, r := range *tmp.Referrers() {
+		sl, isSlice := r.(*ssa.Slice)
+		if !isSlice || sl.Referrers() == nil {
+			continue
+		}
+		for _, r2 := range *sl.Referrers() {
+			if call, isCall := r2.(*ssa.Call); isCall && calleeName(&call.Call) == "builtin.append" && len(call.Call.Args) == 2 && call.Call.Args[1] == ssa.Value(sl) {
+				started = true
+				if !list(call, 0) {
+					return false
+				}
+				continue
+			}
+			if _, isDbg := r2.(*ssa.DebugRef); isDbg {
+				continue
+			}
+			// a literal []string{cfg}: the slice is the list
+			started = true
+			if !list(sl, 0) {
+				return false
+			}
+			break
+		}
+	}
+	return started
+}
+
 func runC14T1(st *c14state) {
 	c := st.c
 	for _, s := range st.sinks {
 		t := &c14t1{c: c}
 		ok := t.validated(s.val, s.store.Block(), nil, 0)
+		if !ok && t.filteredLater(s) {
+			// generate first, filter afterwards: the list the candidate enters is only ever read by code that copies an
+			// element onward where a verdict on that element holds
+			ok = true
+		}
 		why := t.why
 		if why == "" {
 			why = "no verdict of a validator on this very string holds where it is stored"
@@ -836,8 +1231,8 @@ func runC14T1(st *c14state) {
 
 // runQuotingFor is kept for callers that name a producer; the producer is found by role now.
 func runQuotingFor(c *Ctx, rule string, _ *ssa.Function) {
-	st := &c14state{c: c, owners: map[*ssa.Function]bool{}}
-	st.findSinks()
+	c14ctx = c
+	st := c14stateOf(c)
 	c.atLeast(rule, "producers of route command text from catalog entries", len(st.sinks), 1)
 	c14Quoting(st, rule)
 }
@@ -849,7 +1244,7 @@ func c14Quoting(st *c14state, rule string) {
 		return
 	}
 	consumerUnquotes := false
-	eachInstrOf(c.regionDepth(6, parse), func(_ *ssa.Function, i ssa.Instruction) {
+	eachInstrOf(c14reach(c, 8, parse), func(_ *ssa.Function, i ssa.Instruction) {
 		if cc := callCommon(i); cc != nil {
 			if n := calleeName(cc); strings.HasPrefix(n, "strconv.Unquote") || strings.HasPrefix(n, "strconv.QuotedPrefix") {
 				consumerUnquotes = true
